@@ -15,6 +15,7 @@ abstract interpreter see one spelling of constructs that mean the same:
   in a test position:  B if A else False -> A and B ;  True if A else B -> A or B ;  False if A else B -> not A and B ; A if A2 else True ...
   a, b = x, y                           ->  a = x ; b = y            (when y does not mention a)
   for v in IT: acc = acc + E            ->  acc = acc + sum(E for v in IT)   (accumulation loop whose body is that one statement)
+  for v in chain(A, B): BODY            ->  for v in A: BODY ; for v in B: BODY
   return A if C else B                  ->  if C: return A ; return B   (a returned conditional becomes early returns, recursively)
   v = A if C else None                  ->  if C: v = A  else: v = None   (a conditional with a None arm is kept / made a statement)
   f(x, p2=y)                            ->  f(x, y)                  (second pass, needs all signatures: keywords of calls to functions
@@ -357,6 +358,21 @@ class Normalizer(ast.NodeTransformer):
             return [st]
 
         stmts = [y for st in stmts for y in split_or0(st)]
+        # for v in chain(A, B): BODY  ->  one loop per iterable
+        unchained = []
+        for st in stmts:
+            if (
+                isinstance(st, ast.For) and not st.orelse and isinstance(st.iter, ast.Call) and not st.iter.keywords and st.iter.args
+                and ((isinstance(st.iter.func, ast.Name) and st.iter.func.id == "chain") or (isinstance(st.iter.func, ast.Attribute) and st.iter.func.attr == "chain" and ast.unparse(st.iter.func.value) == "itertools"))
+                and not any(isinstance(a, ast.Starred) for a in st.iter.args) and not any(isinstance(n, ast.Break) for b in st.body for n in ast.walk(b))
+            ):
+                import copy as _c
+
+                for a in st.iter.args:
+                    unchained.append(ast.copy_location(ast.For(target=_c.deepcopy(st.target), iter=a, body=_c.deepcopy(st.body), orelse=[]), st))
+                continue
+            unchained.append(st)
+        stmts = unchained
         looped = []
         for st in stmts:
             new = self._loopify_return(st) if isinstance(st, ast.Return) and st.value is not None else None
